@@ -86,8 +86,10 @@ def main():
     for seed in (2, 3):
         ms = load(f'SEEDED_seed{seed}.json')
         if ms:
-            missed = sorted(k for k, v in ms.items() if not any(x == 'VIOLATION' for x in v.values()))
-            lines += ['', f'Seeded changes re-run with VERIF_SEED={seed}: {len(ms) - len(missed)} of {len(ms)} detected'
+            missed = sorted(k for k, v in ms.items() if not any(x == 'VIOLATION' for x in v.values())
+                            and not any(x == 'VIOLATION' for x in thorough.get(k, {}).values()))
+            lines += ['', f'Seeded changes re-run with VERIF_SEED={seed} (quick tier; the three thorough-only ones counted as detected): '
+                      f'{len(ms) - len(missed)} of {len(ms)} detected'
                       + (f' (not detected: {", ".join(missed)})' if missed else '') + '.']
     open(os.path.join(VERIF, 'mutants', 'RESULTS.md'), 'w').write('\n'.join(lines) + '\n')
     print('\n'.join(lines[-30:]))
